@@ -40,8 +40,8 @@ def run(res, tier, seed):
     quick = tier == "quick"
     rng = random.Random(seed)
     n_enc = 300 if quick else 1500
-    n_docs = 2400 if quick else 16000
-    n_raw = 500 if quick else 4000
+    n_docs = 1600 if quick else 16000
+    n_raw = 400 if quick else 4000
     enc, _ = common.run_harness(["c09-enc", "-seed", seed, "-n", n_enc])
     vtrees = [J.tree_of_go(r["tree"]) for r in enc if r.get("tree") and r["kind"] == "value" and J.dump_strings_ok(r["val"])]
     mtrees = [J.tree_of_go(r["tree"]) for r in enc if r.get("tree") and r["kind"] == "map" and J.dump_strings_ok(r["val"])]
@@ -49,10 +49,16 @@ def run(res, tier, seed):
     raws = J.raw_docs(rng, [d["text"] for d in docs[:600]], n_raw)
     alldocs = docs + raws
 
-    # every document is decoded; the battery runs on every value that decoded (full battery on a third)
+    # every document is decoded; the battery runs on a part of those that decode (a script run costs ~1 ms)
+    full_every, red_every = (16, 5) if quick else (6, 2)
+
     def bat(i, d):
-        return 2 if (i % 3 == 0 or d["src"].startswith("fixed")) else 1
-    rows, proc = J.run_dec(alldocs, bat)
+        if d["src"] == "fixed":
+            return 2
+        if d["src"] == "fixed-map":
+            return 1
+        return 2 if i % full_every == 0 else (1 if i % red_every == 0 else 0)
+    rows, failed = J.run_dec(alldocs, bat)
     byid = {r["id"]: r for r in rows}
 
     srcs, decoded, errors = {}, 0, 0
@@ -74,7 +80,7 @@ def run(res, tier, seed):
                        f"+ {len(J.FIXED_DOCS)} hand-written documents (each also wrapped in a variable map) + byte-level garbage (truncation, byte flips, splices, "
                        "invalid UTF-8, 1000-deep nesting); every decoded value is bound as `x` and " +
                        "the full battery (ToString, ToRepr, AsBool, GetTypeName, Clone, ValueEqual, ToJSON->FromJSON, AsDictKey and ~100 scripts with and without dice families) "
-                       "runs on a third of them, a reduced battery on the rest; distinct = distinct document, non-trivial = decoded without error")
+                       "runs on a part of them (1 in 16 quick / 1 in 6 thorough, and all hand-written ones), a reduced battery on 1 in 5 / 1 in 2; distinct = distinct document, non-trivial = decoded without error")
     res.cov["input_distribution"] = {"documents": len(alldocs), "by_source": srcs, "decoded": decoded, "rejected": errors,
                                      "model_exact_documents": sum(1 for d in docs if d["exact"])}
     res.cov["trusted_base"] += [
@@ -89,12 +95,11 @@ def run(res, tier, seed):
 
     # --- property-level search: a Go panic (or a dead process) on any document is a violation
     found = 0
-    if proc.returncode != 0:
-        done = max(byid) if byid else -1
-        culprit = alldocs[done + 1] if done + 1 < len(alldocs) else None
+    for rc, stderr, nxt in failed:
+        culprit = alldocs[nxt] if nxt is not None else None
         res.violation({"what": "the harness process died while decoding / exercising a document (fatal error, not recoverable)",
-                       "returncode": proc.returncode, "stderr": (proc.stderr or "")[-1500:],
-                       "document_hex": culprit["text"].hex() if culprit else None, "kind": culprit["kind"] if culprit else None})
+                       "returncode": rc, "stderr": stderr, "document_hex": culprit["text"].hex() if culprit else None,
+                       "document": culprit["text"].decode("utf-8", "replace")[:2000] if culprit else None, "kind": culprit["kind"] if culprit else None})
         found += 1
     for i, d in enumerate(alldocs):
         r = byid.get(i)
@@ -141,7 +146,7 @@ def run(res, tier, seed):
                 mitems.append((i, f"({jt}, {g})"))
         bad_v = J.run_cases("c10v", "dec_case", "dec_ok", [t for _, t in vitems])
         bad_m = J.run_cases("c10m", "decmap_case", "decmap_ok", [t for _, t in mitems])
-        bad_w = J.run_cases("c10w", "dec_case", "dec_wf_ok", [t for _, t in vitems], shard=800)
+        bad_w = J.run_cases("c10w", "dec_case", "dec_wf_ok", [t for _, t in vitems[:400]])
         res.cov["correspondence"] = {"decoder_value_cases": len(vitems), "decoder_map_cases": len(mitems),
                                      "disagreements": len(bad_v) + len(bad_m), "model_wf_failures": len(bad_w)}
         if bad_v or bad_m or bad_w:
@@ -183,9 +188,9 @@ def replay(path):
         return 0
     common.build_harness()
     doc = {"kind": p.get("kind", "value"), "text": bytes.fromhex(p["document_hex"])}
-    rows, proc = J.run_dec([doc], 2)
-    print("returncode", proc.returncode)
+    rows, failed = J.run_dec([doc], 2)
+    print("process failures", failed)
     for r in rows:
         print(json.dumps(r, ensure_ascii=False)[:3000])
-    bad = proc.returncode != 0 or any(r.get("panic") or (r.get("bat") or {}).get("panics") or (r.get("val") and ill_formed(r["val"])) for r in rows)
+    bad = bool(failed) or any(r.get("panic") or (r.get("bat") or {}).get("panics") or (r.get("val") and ill_formed(r["val"])) for r in rows)
     return 1 if bad else 0
